@@ -1,5 +1,7 @@
 import GixModel.Lemmas.C38Names
 import GixModel.Lemmas.C38Parse
+import GixModel.Lemmas.C38Parse2
+import GixModel.Lemmas.C38Wild
 /-
 C38 — Attribute values agree with git check-attr.  PROPERTY THEOREMS ONLY.
 
@@ -210,6 +212,139 @@ theorem resolve_eq_git_bytes (env : Env) (fs : Files) (path : Bytes) (isDir icas
   resolve_eq_git_bytes_partial env fs path isDir icase sel a hp ha
     ⟨fun b hb => parse_file_eq_git b (hf.1 b hb), fun b hb => parse_file_eq_git b (hf.2.1 b hb),
      fun d b hb => parse_file_eq_git b (hf.2.2 d b hb)⟩
+
+/-! ### round 2: quoted macro definitions, NUL bytes, and the matcher of C36 -/
+
+/-- **parse_line_eq_git2** (extends `parse_line_eq_git`, see `lineOk_sub`): the two line parsers also
+agree on QUOTED MACRO DEFINITIONS `"[attr]name" …` — git unquotes first and then looks for `[attr]`,
+and so does gitoxide — unless an escape or a blank puts a blank, NUL or LF into the macro name
+(`quoted_macro_blank_diverges`). -/
+theorem parse_line_eq_git2 (line : Bytes) (no : Nat) (h : LineOk2 line) :
+    parseAttrLineC true line no = parseLine line no :=
+  lineOk2_parse line no h
+
+theorem lineOk_sub (line : Bytes) (h : LineOk line) : LineOk2 line := lineOk_lineOk2 line h
+
+theorem parse_file_eq_git2 (bytes : Bytes) (h : ∀ l ∈ splitLines (stripBom bytes), LineOk2 l) :
+    parseFileC true bytes = parseFile bytes :=
+  parseFile_eq_git2 bytes h
+
+-- non-vacuity: `"[attr]qm" a -b` and `"[attr]q\055m"<TAB>c` are covered and define the macros qm and q-m
+example : LineOk2 [34, 91, 97, 116, 116, 114, 93, 113, 109, 34, 32, 97, 32, 45, 98] := by decide
+example : LineOk2 [34, 91, 97, 116, 116, 114, 93, 113, 92, 48, 53, 53, 109, 34, 9, 99] := by decide
+example : (parseLine [34, 91, 97, 116, 116, 114, 93, 113, 92, 48, 53, 53, 109, 34, 9, 99] 1).map (·.kind)
+    = some (Kind.macro [113, 45, 109]) := by decide
+
+/-- outside `LineOk2` the parsers really differ: `"[attr] sp x" c` defines the macro `sp` for git
+(leading blanks skipped, the name ends at the next blank) and is dropped by gitoxide (` sp x` is no
+valid attribute name). Replayed against the real code by the harness (corpus:quoted-macro-blank). -/
+theorem quoted_macro_blank_diverges :
+    (parseAttrLineC true [34, 91, 97, 116, 116, 114, 93, 32, 115, 112, 32, 120, 34, 32, 99] 1).map (·.kind)
+        = some (Kind.macro [115, 112])
+      ∧ parseLine [34, 91, 97, 116, 116, 114, 93, 32, 115, 112, 32, 120, 34, 32, 99] 1 = none := by
+  decide
+
+/-- **NUL bytes, git's side**: git reads a line as a C string — what follows the first NUL does not
+exist for it (`cstr`) — so of `a ++ NUL ++ b` it parses `a`; if `a` is a line both parsers read alike,
+git's result for the whole line is gitoxide's result for `a` alone. -/
+theorem nul_truncates_for_git (a b : Bytes) (no : Nat) (ha : LineOk2 a) :
+    parseAttrLineC true (a ++ 0 :: b) no = parseLine a no :=
+  nul_line_git a b no ha
+
+/-- **NUL bytes, gitoxide's side**: a NUL is a byte like any other — part of the pattern, or of an
+attribute name, which it makes invalid. So the two differ: of `*.x a b<NUL>c` git keeps `*.x a b`,
+gitoxide drops the line; of `*.y<NUL>z d` git keeps the pattern `*.y` without attributes, gitoxide the
+pattern `*.y<NUL>z` with `d`. Replayed against the real code by the harness (corpus:nul). -/
+theorem nul_diverges :
+    (parseAttrLineC true [42, 46, 120, 32, 97, 32, 98, 0, 99] 1).map (·.attrs) = some [⟨[97], St.set⟩, ⟨[98], St.set⟩]
+      ∧ parseLine [42, 46, 120, 32, 97, 32, 98, 0, 99] 1 = none
+      ∧ (parseAttrLineC true [42, 46, 121, 0, 122, 32, 100] 1).map (·.attrs) = some []
+      ∧ (parseLine [42, 46, 121, 0, 122, 32, 100] 1).map (·.attrs) = some [⟨[100], St.set⟩] := by
+  decide
+
+/-- every file in play consists of lines of `LineOk2` -/
+def FilesOk2 (fs : Files) : Prop :=
+  (∀ b ∈ fs.globals, ∀ l ∈ splitLines (stripBom b), LineOk2 l)
+    ∧ (∀ b, fs.info = some b → ∀ l ∈ splitLines (stripBom b), LineOk2 l)
+    ∧ (∀ d b, fs.dirs d = some b → ∀ l ∈ splitLines (stripBom b), LineOk2 l)
+
+/-- `resolve_eq_git_bytes` over the larger class of files (quoted macro definitions included) -/
+theorem resolve_eq_git_bytes2 (env : Env) (fs : Files) (path : Bytes) (isDir icase : Bool) (sel : List Bytes)
+    (a : Bytes) (hp : PathOk path) (ha : sel = [] ∨ a ∈ sel) (hf : FilesOk2 fs) :
+    resolve env (fs.parsed parseFile) path isDir icase sel a
+      = some (gitValue (gitCollect env (fs.parsed (parseFileC true)) (gitPath path isDir) icase) a) :=
+  resolve_eq_git_bytes_partial env fs path isDir icase sel a hp ha
+    ⟨fun b hb => parse_file_eq_git2 b (hf.1 b hb), fun b hb => parse_file_eq_git2 b (hf.2.1 b hb),
+     fun d b hb => parse_file_eq_git2 b (hf.2.2 d b hb)⟩
+
+/-- **real_matchers_agree**: gitoxide's `Pattern::matches_repo_relative_path` (C36 model of
+`Pattern::matches` with its shortcuts and of `wildmatch`, called with NO_MATCH_SLASH_LITERAL, on the
+basename for patterns without slash) and git's `path_matches` deciding by wildmatch.c (C36 Spec) give
+the same verdict for every pattern the parser produces that has no NUL, no `**`, fewer than 64 stars
+and — under case folding — no bracket and no escaped upper-case letter (`GoodPat`: exactly where C36
+proves the two wildmatch implementations equal), on every NUL-free name. -/
+theorem real_matchers_agree (icase : Bool) (p : Pat) (hp : GoodPat icase p) (name : Bytes) (hn : ∀ c ∈ name, c ≠ 0)
+    (isDir : Bool) : gixPm p name isDir icase = gitPm p name isDir icase :=
+  pm_eq icase p hp name hn isDir
+
+/-- **resolve_eq_git_wildmatch** — `resolve_eq_git` WITHOUT a matcher parameter: with gitoxide's real
+matcher on one side and git's wildmatch on the other, for all attribute files whose patterns are
+`GoodPat`, every normalised NUL-free path, directory or not, every selection and every reported
+attribute, gitoxide assigns the state git's attr.c assigns. -/
+theorem resolve_eq_git_wildmatch (t : PTree) (path : Bytes) (isDir icase : Bool) (sel : List Bytes) (a : Bytes)
+    (hp : PathOk path) (ha : sel = [] ∨ a ∈ sel) (ht : TreeOk (GoodPat icase) t) (hn : ∀ c ∈ path, c ≠ 0) :
+    resolve ⟨gixPm⟩ t path isDir icase sel a
+      = some (gitValue (gitCollect ⟨gitPm⟩ t (gitPath path isDir) icase) a) := by
+  rw [resolve_eq_git ⟨gixPm⟩ t path isDir icase sel a hp ha]
+  have hg : ∀ c ∈ gitPath path isDir, c ≠ 0 := by
+    intro c hc
+    unfold gitPath at hc
+    split at hc
+    · rcases List.mem_append.mp hc with h | h
+      · exact hn c h
+      · simp at h; subst h; decide
+    · exact hn c hc
+  rw [gitCollect_congr ⟨gixPm⟩ ⟨gitPm⟩ t (gitPath path isDir) icase (GoodPat icase) ht hg
+    (fun p hgp name isdir hnm => pm_eq icase p hgp name hnm isdir)]
+
+/-- the same from the bytes of the attribute files -/
+theorem resolve_eq_git_bytes_wildmatch (fs : Files) (path : Bytes) (isDir icase : Bool) (sel : List Bytes) (a : Bytes)
+    (hp : PathOk path) (ha : sel = [] ∨ a ∈ sel) (hf : FilesOk2 fs)
+    (ht : TreeOk (GoodPat icase) (fs.parsed parseFile)) (hn : ∀ c ∈ path, c ≠ 0) :
+    resolve ⟨gixPm⟩ (fs.parsed parseFile) path isDir icase sel a
+      = some (gitValue (gitCollect ⟨gitPm⟩ (fs.parsed (parseFileC true)) (gitPath path isDir) icase) a) := by
+  have hparse : fs.parsed (parseFileC true) = fs.parsed parseFile := by
+    unfold Files.parsed
+    congr 1
+    · exact List.map_congr_left fun b hb => parse_file_eq_git2 b (hf.1 b hb)
+    · cases hinfo : fs.info with
+      | none => rfl
+      | some b => simp [parse_file_eq_git2 b (hf.2.1 b hinfo)]
+    · funext d
+      cases hdir : fs.dirs d with
+      | none => rfl
+      | some b => simp [parse_file_eq_git2 b (hf.2.2 d b hdir)]
+  rw [hparse]
+  exact resolve_eq_git_wildmatch _ path isDir icase sel a hp ha ht hn
+
+-- non-vacuity: the root file `*.c lang=c` / `src/*.[ch] -lang` (a star, a bracket, a slash) is `GoodPat`,
+-- and the real matchers decide `src/f.c`
+example :
+    let p1 : Pat := ⟨[42, 46, 99], false, false, false, true, true, some 0⟩
+    let p2 : Pat := ⟨[115, 114, 99, 47, 42, 46, 91, 99, 104, 93], false, false, false, false, false, some 4⟩
+    GoodPat false p1 ∧ GoodPat false p2 :=
+  ⟨⟨⟨[42, 46, 99], by decide⟩, ⟨by decide, by intro h; cases h⟩, by decide, by decide⟩,
+   ⟨⟨[115, 114, 99, 47, 42, 46, 91, 99, 104, 93], by decide⟩, ⟨by decide, by intro h; cases h⟩, by decide, by decide⟩⟩
+
+example :
+    let lang : Bytes := [108, 97, 110, 103]
+    let p1 : Pat := ⟨[42, 46, 99], false, false, false, true, true, some 0⟩
+    let p2 : Pat := ⟨[115, 114, 99, 47, 42, 46, 91, 99, 104, 93], false, false, false, false, false, some 4⟩
+    let t : PTree := ⟨[], none,
+      fun d => if d = [] then some [⟨Kind.pattern p1, [⟨lang, St.value [99]⟩], 1⟩, ⟨Kind.pattern p2, [⟨lang, St.unset⟩], 2⟩] else none⟩
+    resolve ⟨gixPm⟩ t [115, 114, 99, 47, 102, 46, 99] false false [] lang = some St.unset
+      ∧ resolve ⟨gixPm⟩ t [108, 105, 98, 47, 102, 46, 99] false false [] lang = some (St.value [99]) := by
+  decide +kernel
 
 /-- **unspecified_vs_unset**: "unspecified because of `!a`" is a decision like "unset because of
 `-a`" — once an attribute has either state, nothing of lower precedence (later lines, shallower
